@@ -78,3 +78,24 @@ Theorem C04_capply_commute_apply : forall K (O : Ops K), Laws O -> forall U V di
   capply O U dims ax cax cvals (apply O V d2 a2 psi) i = apply O V d2 a2 (capply O U dims ax cax cvals psi) i.
 Proof. exact @capply_commute_apply. Qed.
 Print Assumptions C04_capply_commute_apply.
+
+(* ---- application to subspaces of wider axes (Sim/SubspaceApply.v): ApplyUnitaryArgs.subspaces ---- *)
+From VF Require Import Base.K8 Sim.CtrlApply Sim.SubspaceApply Sim.SubspaceApplyProofs.
+Theorem C04_subspace_outside_untouched : forall K (O : Ops K) U ax subs (psi : tensor (K:=K)) i,
+  poss subs (gets i ax) = None -> sapply O U ax subs psi i = psi i.
+Proof. intros. apply sapply_outside. assumption. Qed.
+Print Assumptions C04_subspace_outside_untouched.
+Theorem C04_subspace_full_is_apply : forall K (O : Ops K) U dims ax (psi : tensor (K:=K)) i, Forall2 lt (gets i ax) dims ->
+  sapply O U ax (full_subs dims) psi i = apply O U dims ax psi i.
+Proof. exact @sapply_full. Qed.
+Print Assumptions C04_subspace_full_is_apply.
+(* a product of gates on the subspace = the gates one after the other on the subspace: running a decomposition on the slice is sound *)
+Theorem C04_subspace_product : forall K (O : Ops K), Laws O -> forall ax subs, NoDup ax -> (forall s, In s subs -> NoDup s) ->
+  length subs = length ax -> forall U V (psi : tensor (K:=K)) i, (forall a, In a ax -> a < length i) ->
+  sapply O (mcomp O (sub_dims subs) U V) ax subs psi i = sapply O U ax subs (sapply O V ax subs psi) i.
+Proof. exact @sapply_mcomp. Qed.
+Print Assumptions C04_subspace_product.
+Theorem C04_ignoring_subspaces_refuted :
+  sapply K8Ops ex_Xf [0] [[1; 2]] ex_psi3 [1] <> sapply K8Ops ex_Xf [0] [[0; 1]] ex_psi3 [1].
+Proof. exact sapply_ignoring_subspaces_refuted. Qed.
+Print Assumptions C04_ignoring_subspaces_refuted.
